@@ -138,7 +138,10 @@ fn pass_2_internal(segment: &Segment, common_context: &CommonContext) -> Result<
                 }
             }
             Item::Undef(alias) => {
-                if let None = common_context.defs.borrow_mut().remove(alias) {
+                if let None = common_context
+                    .defs
+                    .borrow_mut()
+                    .remove(&alias.to_lowercase()) {
                     bail!("Identifier {} isn't defined, {}", alias, line);
                 }
             }
